@@ -59,7 +59,7 @@ func defaultGhost(st *State, key string) Value {
 		return Var(fmt.Sprintf("hdr%d:%s", ep, key[4:]), SArr(SStr, SStr))
 	case strings.HasPrefix(key, "refused:"):
 		return Var(fmt.Sprintf("refused%d:%s", ep, key[8:]), SInt)
-	case strings.HasPrefix(key, "lock:"):
+	case strings.HasPrefix(key, "lock:"), strings.HasPrefix(key, "rlock:"):
 		return False
 	}
 	return nil
